@@ -26,8 +26,10 @@ fn main() {
     let dest = std::path::Path::new(&out_dir).join("std_files.rs");
     let mut f = std::fs::File::create(&dest).unwrap();
     writeln!(f, "pub static STD_FILES: &[(&str, &str)] = &[").unwrap();
-    walk(&mut f, std::path::Path::new("/repo/std"), "<std>/");
+    let repo = std::fs::canonicalize("../repo-link").expect("repo-link");
+    walk(&mut f, &repo.join("std"), "<std>/");
     writeln!(f, "];").unwrap();
-    println!("cargo:rerun-if-changed=/repo/src/driver.rs");
-    println!("cargo:rerun-if-changed=/repo/src/usage_help.md");
+    println!("cargo:rerun-if-changed={}", repo.join("src/driver.rs").to_string_lossy());
+    println!("cargo:rerun-if-changed={}", repo.join("src/usage_help.md").to_string_lossy());
+    println!("cargo:rerun-if-changed=../repo-link");
 }
